@@ -538,6 +538,18 @@ def part_transparency(ctx, k):
                  ['event', t, ns, 'ev0', [k], None],
                  ['get_session', ['sid', t, ns], ns]]
         ctx.count('transparency_scripts_with_object_in_session')
+    # a busy period: more than a thousand room changes within one interval
+    # of the instrumentation's statistics task (chat rooms being joined and
+    # left), followed by ordinary traffic
+    if conns and rng.random() < 0.04:
+        t, ns = rng.choice(conns)
+        burst = []
+        for i in range(rng.choice([520, 700])):
+            burst.append(['enter', ['sid', t, ns], 'room-%d' % (i % 7), ns])
+            burst.append(['leave', ['sid', t, ns], 'room-%d' % (i % 7), ns])
+        ops0 += burst + [['event', t, ns, 'ev0', [k, 'after'], 3],
+                         ['emit', 10 ** 6 + k, None, None, ns, None]]
+        ctx.count('transparency_scripts_with_a_burst_of_room_changes')
     cfg, ops = c14.materialise(cfg0, ops0)
     kind = 'sync' if rng.random() < 0.5 else 'async'
     cfg['kind'] = kind
@@ -768,6 +780,7 @@ def run(ctx):
     ctx.require('control_requests_with_effect', 3)
     ctx.require('websocket_conversations', 5)
     ctx.require('transparency_scripts', 20)
+    ctx.require('transparency_scripts_with_a_burst_of_room_changes', 2)
     ctx.require('transparency_runs_with_admin_connected', 5)
     ctx.require('transparency_frames_compared', 200)
     k = ctx.shard
